@@ -3,7 +3,7 @@
    hand-written forward / adjoint pairs are adjoint and linear, for every size.
    Final statements only. *)
 From Coq Require Import QArith Qcanon List.
-From PV Require Import Dict Vec Dot QcInst Slice Deriv Deriv2 DerivSpec DerivStencil DerivND Causal.
+From PV Require Import Dict Vec Dot QcInst Slice Deriv Deriv2 DerivSpec DerivStencil DerivND Causal Axis AxisOps.
 Import ListNotations.
 Open Scope nat_scope.
 
@@ -96,4 +96,120 @@ Print Assumptions C02_ci_adj_linear.
 Example C07a_two_nonzero_Qc : radd QcF (r1 QcF) (r1 QcF) <> r0 QcF.
 Proof. intro H. apply (f_equal this) in H. vm_compute in H. discriminate. Qed.
 Example C07a_ci_example : map this (ci_mv QcF Trapezoidal true q1 xsq) = [1#2; 3#1; 19#2; 22#1]%Q.
+Proof. vm_compute. reflexivity. Qed.
+
+(* ================= any axis of any N-d C-ordered array (Ops/Axis.v, Ops/AxisOps.v) =================
+   dims = outer x n x inner seen from the axis; flat index i <-> (o, j, k) = (i/inner/n', (i/inner) mod n', i mod inner) *)
+Theorem C01_along_axis_adjoint : forall (R : CRing) outer n n' inner f g, AdjPair R n n' f g ->
+  (forall a, length a = n -> length (f a) = n') -> (forall b, length b = n' -> length (g b) = n) ->
+  AdjPair R (outer * n * inner) (outer * n' * inner) (along_axis_gen R outer n n' inner f) (along_axis_gen R outer n' n inner g).
+Proof. exact along_axis_gen_adjoint. Qed.
+Print Assumptions C01_along_axis_adjoint.
+Theorem C02_along_axis_linear : forall (R : CRing) outer n n' inner f, LinearOn R n f ->
+  (forall a, length a = n -> length (f a) = n') -> LinearOn R (outer * n * inner) (along_axis_gen R outer n n' inner f).
+Proof. exact along_axis_gen_linear. Qed.
+Print Assumptions C02_along_axis_linear.
+Theorem C07a_along_axis_entry : forall (R : CRing) outer n n' inner f (x : list R) o j k,
+  (forall a, length a = n -> length (f a) = n') -> length x = outer * n * inner -> o < outer -> j < n' -> k < inner ->
+  nth ((o * n' + j) * inner + k) (along_axis_gen R outer n n' inner f x) (r0 R) = nth j (f (fibre R n inner o k x)) (r0 R).
+Proof. exact nth_along_axis_gen. Qed.
+Print Assumptions C07a_along_axis_entry.
+Theorem C07a_along_axis_wrapper : forall (R : CRing) outer n n' inner f, (forall a, length a = n -> length (f a) = n') ->
+  along_axis R outer n inner f = along_axis_gen R outer n n' inner f.
+Proof. exact along_axis_eq. Qed.
+
+(* FirstDerivative / SecondDerivative / CausalIntegration along any axis *)
+Theorem C07a_fd_nd_meets_spec : forall (F : FieldS) outer n inner k o e s (x : list F) i,
+  fd_minsize k o e <= n -> length x = outer * n * inner -> i < outer * n * inner ->
+  nth i (fd_nd F outer n inner k o e s x) (r0 F) =
+  fd_spec F k o e s n ((i / inner) mod n) (fibre F n inner (i / inner / n) (i mod inner) x).
+Proof. exact fd_nd_meets_spec. Qed.
+Print Assumptions C07a_fd_nd_meets_spec.
+Theorem C01_fd_nd_adjoint : forall (F : FieldS) outer n inner k o e s, fd_minsize k o e <= n ->
+  AdjPair F (outer * n * inner) (outer * n * inner) (fd_nd F outer n inner k o e s) (fd_nd_adj F outer n inner k o e s).
+Proof. exact fd_nd_adjoint. Qed.
+Print Assumptions C01_fd_nd_adjoint.
+Theorem C02_fd_nd_linear : forall (F : FieldS) outer n inner k o e s, fd_minsize k o e <= n ->
+  LinearOn F (outer * n * inner) (fd_nd F outer n inner k o e s).
+Proof. exact fd_nd_linear. Qed.
+Theorem C07a_sd_nd_meets_spec : forall (F : FieldS) outer n inner k e s (x : list F) i,
+  sd_minsize k e <= n -> length x = outer * n * inner -> i < outer * n * inner ->
+  nth i (sd_nd F outer n inner k e s x) (r0 F) =
+  sd_spec F k e s n ((i / inner) mod n) (fibre F n inner (i / inner / n) (i mod inner) x).
+Proof. exact sd_nd_meets_spec. Qed.
+Print Assumptions C07a_sd_nd_meets_spec.
+Theorem C01_sd_nd_adjoint : forall (F : FieldS) outer n inner k e s, sd_minsize k e <= n ->
+  AdjPair F (outer * n * inner) (outer * n * inner) (sd_nd F outer n inner k e s) (sd_nd_adj F outer n inner k e s).
+Proof. exact sd_nd_adjoint. Qed.
+Print Assumptions C01_sd_nd_adjoint.
+Theorem C02_sd_nd_linear : forall (F : FieldS) outer n inner k e s, sd_minsize k e <= n ->
+  LinearOn F (outer * n * inner) (sd_nd F outer n inner k e s).
+Proof. exact sd_nd_linear. Qed.
+Theorem C07a_ci_nd_meets_spec : forall (F : FieldS) outer n inner k (rf : bool) s (x : list F) i,
+  radd F (r1 F) (r1 F) <> r0 F -> (if rf then 1 else 0) <= n ->
+  length x = outer * n * inner -> i < outer * rfn rf n * inner ->
+  nth i (ci_nd F outer n inner k rf s x) (r0 F) =
+  ci_spec F k rf s ((i / inner) mod rfn rf n) (fibre F n inner (i / inner / rfn rf n) (i mod inner) x).
+Proof. exact ci_nd_meets_spec. Qed.
+Print Assumptions C07a_ci_nd_meets_spec.
+Theorem C01_ci_nd_adjoint : forall (F : FieldS) outer n inner k (rf : bool) s,
+  radd F (r1 F) (r1 F) <> r0 F -> (if rf then 1 else 0) <= n ->
+  AdjPair F (outer * n * inner) (outer * rfn rf n * inner) (ci_nd F outer n inner k rf s) (ci_nd_adj F outer n inner k rf s).
+Proof. exact ci_nd_adjoint. Qed.
+Print Assumptions C01_ci_nd_adjoint.
+Theorem C02_ci_nd_linear : forall (F : FieldS) outer n inner k (rf : bool) s,
+  radd F (r1 F) (r1 F) <> r0 F -> (if rf then 1 else 0) <= n -> LinearOn F (outer * n * inner) (ci_nd F outer n inner k rf s).
+Proof. exact ci_nd_linear. Qed.
+
+(* Laplacian over any number of axes of an N-d array (each axis = a factorisation outer*n*inner of N) *)
+Theorem C07a_laplacian_nd_meets_spec : forall (F : FieldS) N k e (axes : list (axis F)) (x : list F) i,
+  axes_ok F N (sd_minsize k e) axes -> length x = N -> i < N ->
+  nth i (lap_nd F N k e axes x) (r0 F) =
+  fold_right (fun a acc => radd F (rmul F (a_w F a)
+       (sd_spec F k e (a_s F a) (a_n F a) ((i / a_inner F a) mod a_n F a)
+          (fibre F (a_n F a) (a_inner F a) (i / a_inner F a / a_n F a) (i mod a_inner F a) x))) acc) (r0 F) axes.
+Proof. exact lap_nd_meets_spec. Qed.
+Print Assumptions C07a_laplacian_nd_meets_spec.
+Theorem C01_laplacian_nd_adjoint : forall (F : FieldS) N k e (axes : list (axis F)),
+  axes_ok F N (sd_minsize k e) axes -> AdjPair F N N (lap_nd F N k e axes) (lap_nd_adj F N k e axes).
+Proof. exact lap_nd_adjoint. Qed.
+Print Assumptions C01_laplacian_nd_adjoint.
+(* Gradient = vertical stack of the per-axis first derivatives; adjoint = sum of the per-axis adjoints *)
+Theorem C07a_gradient_nd_meets_spec : forall (F : FieldS) N k e (axes : list (axis F)) (x : list F) b i a,
+  axes_ok F N (fd_minsize k false e) axes -> length x = N -> i < N -> nth_error axes b = Some a ->
+  nth (b * N + i) (grad_nd F k e axes x) (r0 F) =
+  fd_spec F k false e (a_s F a) (a_n F a) ((i / a_inner F a) mod a_n F a)
+    (fibre F (a_n F a) (a_inner F a) (i / a_inner F a / a_n F a) (i mod a_inner F a) x).
+Proof. exact grad_nd_meets_spec. Qed.
+Print Assumptions C07a_gradient_nd_meets_spec.
+Theorem C01_gradient_nd_adjoint : forall (F : FieldS) N k e (axes : list (axis F)),
+  axes_ok F N (fd_minsize k false e) axes -> AdjPair F N (N * length axes) (grad_nd F k e axes) (grad_nd_adj F N k e axes).
+Proof. exact grad_nd_adjoint. Qed.
+Print Assumptions C01_gradient_nd_adjoint.
+(* FirstDirectionalDerivative = sum_a v_a .* D_a ; SecondDirectionalDerivative = - D_v^T D_v *)
+Theorem C07a_fdd_nd_meets_spec : forall (F : FieldS) N k e (axes : list (axis F * list F)) (x : list F) i,
+  vaxes_ok F N (fd_minsize k false e) axes -> length x = N -> i < N ->
+  nth i (fdd_nd F N k e axes x) (r0 F) =
+  fold_right (fun av acc => radd F (rmul F (nth i (snd av) (r0 F))
+       (fd_spec F k false e (a_s F (fst av)) (a_n F (fst av)) ((i / a_inner F (fst av)) mod a_n F (fst av))
+          (fibre F (a_n F (fst av)) (a_inner F (fst av)) (i / a_inner F (fst av) / a_n F (fst av)) (i mod a_inner F (fst av)) x))) acc)
+     (r0 F) axes.
+Proof. exact fdd_nd_meets_spec. Qed.
+Print Assumptions C07a_fdd_nd_meets_spec.
+Theorem C01_fdd_nd_adjoint : forall (F : FieldS) N k e (axes : list (axis F * list F)),
+  vaxes_ok F N (fd_minsize k false e) axes -> AdjPair F N N (fdd_nd F N k e axes) (fdd_nd_adj F N k e axes).
+Proof. exact fdd_nd_adjoint. Qed.
+Print Assumptions C01_fdd_nd_adjoint.
+Theorem C01_sdd_nd_selfadjoint : forall (F : FieldS) N e (axes : list (axis F * list F)),
+  vaxes_ok F N (fd_minsize Centered false e) axes -> AdjPair F N N (sdd_nd F N e axes) (sdd_nd F N e axes).
+Proof. exact sdd_nd_selfadjoint. Qed.
+Print Assumptions C01_sdd_nd_selfadjoint.
+
+(* non-vacuity: a 2 x 3 array, both axes, edges on *)
+Definition ax23 : list (axis QcF) := [Build_axis QcF 1 2 3 q1 q1; Build_axis QcF 2 3 1 q1 q1].
+Example C07a_axes_ok_example : axes_ok QcF 6 (fd_minsize Centered false true) ax23.
+Proof. repeat constructor. Qed.
+Example C07a_gradient_nd_example :
+  map this (grad_nd QcF Centered true ax23 (map (fun k => Q2Qc (Z.of_nat (k * k) # 1)) (seq 0 6))) =
+  [9#1; 15#1; 21#1; 9#1; 15#1; 21#1;  1#1; 2#1; 3#1; 7#1; 8#1; 9#1]%Q.
 Proof. vm_compute. reflexivity. Qed.
